@@ -5,8 +5,8 @@ SPEC = dict(
     level_text="Bounded model checking: evaluate_expression is executed symbolically on ONE operator node at a time (21 binary, 3 unary "
                "operators, ALIGN, literal leaves) whose children are either arbitrary 64-bit literals (value step) or sub-expressions "
                "that evaluate to a value or an error (error step), and the result is compared with GNU ld's ldexp.c semantics -- the "
-               "inductive step for trees of any depth; each precedence level parse_<L> of the expression parser is executed on "
-               "'1 ?? 2??3' with symbolic operator tokens while every other level is a tagged stub.",
+               "inductive step for trees of any depth; each binary precedence level parse_<L> of the expression parser is executed on "
+               "'1 ?? 2??3' with symbolic operator tokens while every other level is a tagged stub, and parse_unary on one prefix operator.",
     level_note="GNU ld semantics transcribed from ldexp.c / ldgram.y (cited in the harnesses); Kani/CBMC trusted; the composition of the "
                "per-node and per-level results into whole trees / the whole grammar is an argument on paper, not a solver result.",
     overlays=[(E, "harness/libwild/expression_eval.rs"), (P, "harness/libwild/linker_script.rs")],
@@ -57,27 +57,29 @@ SPEC = dict(
         dict(fn="c16_parse_shift", file=P, timeout=900),
         dict(fn="c16_parse_additive", file=P, timeout=900),
         dict(fn="c16_parse_multiplicative", file=P, timeout=900),
-        dict(fn="c16_parse_unary_not", file=P, timeout=900, tiers=[]),
-        dict(fn="c16_parse_unary_inv", file=P, timeout=900, tiers=[]),
-        dict(fn="c16_parse_unary_neg", file=P, timeout=900, tiers=[]),
-        dict(fn="c16_parse_unary_not_not", file=P, timeout=900, tiers=[]),
-        dict(fn="c16_parse_unary_not_inv", file=P, timeout=900, tiers=[]),
-        dict(fn="c16_parse_unary_not_neg", file=P, timeout=900, tiers=[]),
-        dict(fn="c16_parse_unary_inv_not", file=P, timeout=900, tiers=[]),
-        dict(fn="c16_parse_unary_inv_inv", file=P, timeout=900, tiers=[]),
-        dict(fn="c16_parse_unary_inv_neg", file=P, timeout=900, tiers=[]),
-        dict(fn="c16_parse_unary_neg_not", file=P, timeout=900, tiers=[]),
-        dict(fn="c16_parse_unary_neg_inv", file=P, timeout=900, tiers=[]),
-        dict(fn="c16_parse_unary_neg_neg", file=P, timeout=900, tiers=[]),
+        dict(fn="c16_parse_unary_not", file=P, timeout=1800, recursion_bound={"linker_script::parse_unary": 2}),
+        dict(fn="c16_parse_unary_inv", file=P, timeout=1800, recursion_bound={"linker_script::parse_unary": 2}),
+        dict(fn="c16_parse_unary_neg", file=P, timeout=1800, recursion_bound={"linker_script::parse_unary": 2}),
+        dict(fn="c16_parse_unary_not_not", file=P, timeout=3000, tiers=[], recursion_bound={"linker_script::parse_unary": 3}),
+        dict(fn="c16_parse_unary_not_inv", file=P, timeout=3000, tiers=[], recursion_bound={"linker_script::parse_unary": 3}),
+        dict(fn="c16_parse_unary_not_neg", file=P, timeout=3000, tiers=[], recursion_bound={"linker_script::parse_unary": 3}),
+        dict(fn="c16_parse_unary_inv_not", file=P, timeout=3000, tiers=[], recursion_bound={"linker_script::parse_unary": 3}),
+        dict(fn="c16_parse_unary_inv_inv", file=P, timeout=3000, tiers=[], recursion_bound={"linker_script::parse_unary": 3}),
+        dict(fn="c16_parse_unary_inv_neg", file=P, timeout=3000, tiers=[], recursion_bound={"linker_script::parse_unary": 3}),
+        dict(fn="c16_parse_unary_neg_not", file=P, timeout=3000, tiers=[], recursion_bound={"linker_script::parse_unary": 3}),
+        dict(fn="c16_parse_unary_neg_inv", file=P, timeout=3000, tiers=[], recursion_bound={"linker_script::parse_unary": 3}),
+        dict(fn="c16_parse_unary_neg_neg", file=P, timeout=3000, tiers=[], recursion_bound={"linker_script::parse_unary": 3}),
     ],
-    functions_encoded=["expression_eval::evaluate_expression::<Elf>"] + ["linker_script::parse_%s" % l for l in ("logical_or","logical_and","bitwise_or","bitwise_xor","bitwise_and","comparison","shift","additive","multiplicative")],
+    functions_encoded=["expression_eval::evaluate_expression::<Elf>"] + ["linker_script::parse_%s" % l for l in ("logical_or","logical_and","bitwise_or","bitwise_xor","bitwise_and","comparison","shift","additive","multiplicative","unary")],
     bounds="evaluator: one operator node over two children, all 64-bit child values (value step: Number leaves) and all value/error "
            "combinations of the children with at least one error (error step); division: 12 concrete divisors (incl. -1, i64::MIN, i64::MAX) x all 64-bit dividends "
-           "plus both operands in (-32, 32); parser: per level, input '1 ?? 2??3' with both ?? ranging over all 17 binary operator tokens, "
-           "unwind 5",
+           "plus both operands in (-32, 32); parser: per binary level, input '1 ?? 2??3' with both ?? ranging over all 17 binary operator "
+           "tokens, unwind 5; unary level: one prefix operator (each of ! ~ -, concrete per harness) in front of any digit followed by any "
+           "byte, loop bound 4, recursion bound 2 for parse_unary with the recursion unwinding assertion proved",
     outside_bounds="whole trees deeper than one operator (covered only through the inductive-step argument); symbols, SIZEOF/ALIGNOF/"
-                   "ORIGIN/LENGTH and real ADDR lookups (need populated OutputSections); 64x64-bit symbolic division; the unary and "
-                   "primary parser levels (parse_unary's self-recursion does not finish, see DESIGN.md section 6/8), operand "
+                   "ORIGIN/LENGTH and real ADDR lookups (need populated OutputSections); 64x64-bit symbolic division; runs of two or more "
+                   "prefix operators (`!!x`; parse_unary's self-recursion: only the one-operator harnesses finish, see DESIGN.md "
+                   "section 6/8) and the primary parser level, operand "
                    "errors inside the parser (operand stubs are infallible), whitespace/number/identifier lexing",
     stubs=["std::fmt::format", "String::from_utf8_lossy", "expression_eval::section_size/section_align -> kani::any()",
            "expression_eval::section_address -> value or error chosen by the harness (error step only)",
